@@ -140,6 +140,23 @@ func checkC16(w *World, r *Report) {
 					return false, false
 				})
 				r.Check(MustPass(split, edges, fs.Store.Block()), "C16.split", "split only when the source holds the amount", pos, "dominated by currentlyLocked - amount >= 0", "the source pool can be driven negative")
+				// the converse: a split that reports success has been carried out - every return whose error may be nil is
+				// dominated by the reduction of the source (a silent "nothing to do" return leaves the upgrade half applied:
+				// the caller goes on with the other splits and persists)
+				if okSub {
+					early := ""
+					for _, ret := range Returns(split) {
+						rv := retVals(ret)
+						if len(rv) > 0 && isErrorType(rv[len(rv)-1].Type()) && nonNilAt(rv[len(rv)-1], ret.Block(), 0) {
+							continue
+						}
+						sb := fs.Store.Block()
+						if !(sb == ret.Block() || sb.Dominates(ret.Block())) {
+							early = w.Pos(ret.Pos())
+						}
+					}
+					r.Check(early == "", "C16.split", "a split that reports success has reduced the source pool", pos, "the reduction dominates every return whose error may be nil", "the split helper can report success without having split anything (return at "+early+"): the upgrade continues with the remaining splits and persists a partially applied split")
+				}
 			}
 			if nsrc == 0 {
 				r.Bad("C16.split", "source pool reduced", w.Pos(split.Pos()), "the split creates a pool without reducing the source")
